@@ -558,12 +558,41 @@ def r01_5(ctx):
             final_else = ast.unparse(x.orelse)
             break
         got = dict(pairs)
+        scaled = txt.startswith("2 * ")
+        if not pairs:
+            # the same table as a dispatch dict of one-line predicates: D.get(rel, <ge>)(comp) / D[rel](comp)
+            from .common import expand_locals
+
+            def pred_text(e: ast.AST, argtxt: str) -> Optional[str]:
+                if isinstance(e, ast.Lambda) and len(e.args.args) == 1:
+                    return ast.unparse(e.body).replace(e.args.args[0].arg, argtxt)
+                if isinstance(e, ast.Name) and repo.has_func(f"{CORE}:{e.id}"):
+                    h = repo.func(f"{CORE}:{e.id}")
+                    rs = [r for r in ast.walk(h.node) if isinstance(r, ast.Return)]
+                    if len(rs) == 1 and len(h.node.args.args) == 1 and rs[0].value is not None:
+                        return ast.unparse(rs[0].value).replace(h.node.args.args[0].arg, argtxt)
+                return None
+
+            full = ast.parse(expand_locals(f.node, node), mode="eval").body
+            for c in ast.walk(full):
+                if isinstance(c, ast.Call) and isinstance(c.func, ast.Call) and isinstance(c.func.func, ast.Attribute) and c.func.func.attr == "get" \
+                        and isinstance(c.func.func.value, ast.Name) and c.func.args and ast.unparse(c.func.args[0]) == "rel" and len(c.args) == 1:
+                    d = repo.resolve_const(CORE, c.func.func.value.id)
+                    if isinstance(d, ast.Dict):
+                        for k_, v_ in zip(d.keys, d.values):
+                            pt = pred_text(v_, ast.unparse(c.args[0]))
+                            if pt is not None:
+                                got[ast.unparse(k_)] = pt
+                        if len(c.func.args) > 1:
+                            final_else = pred_text(c.func.args[1], ast.unparse(c.args[0]))
+            t2 = ast.unparse(full).replace(" ", "")
+            scaled = scaled or (t2.startswith("2if") and t2.endswith("else0")) or t2.startswith("2*")
         for k, v in want.items():
             if got.get(k) != v:
                 missing.append(f"{k}: {got.get(k)} (expected {v})")
         if final_else != "comp >= 0":
             missing.append(f"GREATER_EQUAL/else: {final_else}")
-        if not txt.startswith("2 * "):
+        if not scaled:
             missing.append("result not scaled to {0,2}")
         if missing:
             ctx.bad(construct, "relation table changed: " + "; ".join(missing), f.loc(rel_ret[-1]))
